@@ -127,6 +127,44 @@ def hex_(E, R):
     return n
 
 
+def real_leaf(E, R, app):
+    """the last derivation of the application path runs the REAL ckd (all 2^512 PRF outputs): when BIP32 declares that
+    child invalid the request is refused -- it is not answered from some other path (e.g. the next index)"""
+    b85, k, c = _mk(E, R)
+    idx = E.bv("index", 31)
+    if app == "hex":
+        path = [83696968 + HARD, 128169 + HARD, 32 + HARD]
+        f = lambda: b85.hex(32, idx)
+    else:
+        path = [83696968 + HARD, 2 + HARD]
+        f = lambda: b85.wif(idx)
+    if E.symbolic:
+        hw.real_calls(prv={len(path) + 1})
+    r = E.run(f)
+    if E.symbolic:
+        hw.real_calls()
+    kk, cc, _ = hw.derive(E, k, c, path)
+    ref = cm.ckd_priv(E, kk, cc, idx + HARD)
+    if ref[0] == "invalid":
+        E.check(isinstance(r, Raised), "a request whose path contains an invalid child is refused, not answered from another path")
+        return "invalid-leaf"
+    ent = E.H.hmac512(KEY, ser(ref[0], 32))
+    if app == "hex":
+        if isinstance(r, Raised):
+            E.fail("legal parameters yield hex (real leaf derivation)")
+            return "raised"
+        E.check_eq(r, ent[:32].hex(), "hex == hex(E[:32]) with the leaf derived by the real CKDpriv")
+    else:
+        sec = ifb(ent[:32], "big")
+        if _t(E, (sec == 0) | (sec >= N) if E.symbolic else (sec == 0 or sec >= N)):
+            return "invalid-secret"
+        if isinstance(r, Raised):
+            E.fail("legal index yields a WIF (real leaf derivation)")
+            return "raised"
+        E.check_eq(cm.b58_payload(E, R, r), b"\x80" + ent[:32] + b"\x01", "WIF payload with the leaf derived by the real CKDpriv")
+    return "ok"
+
+
 def pwd(E, R):
     b85, k, c = _mk(E, R)
     pl = E.sbv("pwd_len")
@@ -279,6 +317,9 @@ def cases(tier):
                                                               "password == first pwd_len characters of Base64(E) at m/83696968'/707764'/pwd_len'/index'")),
           Case("distinct", "distinct", need=("distinct (application, parameter, index) triples give distinct paths",)),
           Case("paper", "paper", weight=5, need=("bip85_data entry equals the BIP85 value for the path in its key",))]
+    for app in ("hex", "wif"):
+        cs.append(Case("real_leaf[%s]" % app, "real_leaf", dict(app=app), weight=10,
+                       need=("a request whose path contains an invalid child is refused, not answered from another path",)))
     cs.append(Case("successive[hex]", "successive", dict(app="hex"),
                    need=("secret belongs to the master key it was requested from (successive wallets)",)))
     for app in ("mnemonic", "wif", "xprv", "hex", "pwd"):
